@@ -20,7 +20,7 @@ def check_C06(tier):
     tr, st, p = kit.drive("eqdrive", "C06", ["-prop", "C06", "-tier", tier, "-table", table])
     env, olog = oracle_env("C06")
     env["VERIF_TABLE"] = table
-    v = kit.judge("C06", "TraceXmssEq", "TraceKit", tr, env=env, expect_events=st.get("events"), heap="10g", timeout=3000)
+    v = judge_sharded_oracle("C06", "TraceXmssEq", "TraceKit", tr, env, st.get("events"), shards=12, heavy=('"ev":"key"', '"ev":"sig"'))
     fallbacks = sum(1 for _ in open(olog)) if os.path.exists(olog) else 0
     if st.get("rows_failing_audit") or fallbacks:
         log("MODEL-DRIFT property=C06: %s recorded hash rows failed the audit, %d hash inputs prescribed by the equations were never hashed by the library" %
@@ -56,15 +56,15 @@ def check_C07(tier):
                      "dense products A s1 and A y are checked at seeded coefficient positions, not completely: the challenge seed c~ = H(mu || w1) is taken from the library (per iteration, through the signing hook) and not recomputed",
                      "the matrix A is sampled in the NTT domain as the Dilithium specification prescribes; NTT is defined by evaluation at the roots of X^256+1 and computed by a butterfly network proved equal to it on all unit vectors"])
 
-def judge_sharded_oracle(label, module, cfg, trace, env, expect, shards):
+def judge_sharded_oracle(label, module, cfg, trace, env, expect, shards, heavy=('"ev":"keygen"', '"ev":"sign"')):
     """like kit.judge(shards=...) but every shard gets its own oracle request/response files"""
     from concurrent.futures import ThreadPoolExecutor
     lines = open(trace).read().splitlines(True)
     n = len(lines)
     # heavy events first in their own shard: one event per shard for keygen / sign, the rest together
-    heavy = [i for i, l in enumerate(lines) if '"ev":"keygen"' in l or '"ev":"sign"' in l]
-    light = [i for i in range(n) if i not in set(heavy)]
-    groups = [[i] for i in heavy] + ([light] if light else [])
+    hv = [i for i, l in enumerate(lines) if any(h in l[:40] for h in heavy)]
+    light = [i for i in range(n) if i not in set(hv)]
+    groups = [[i] for i in hv] + ([light] if light else [])
     def one(gi):
         idxs = groups[gi]
         pth = "%s.g%d" % (trace, gi)
@@ -73,7 +73,7 @@ def judge_sharded_oracle(label, module, cfg, trace, env, expect, shards):
         e = dict(env)
         e["VERIF_ORACLE_REQ"] = env["VERIF_ORACLE_REQ"] + ".g%d" % gi
         e["VERIF_ORACLE_RESP"] = env["VERIF_ORACLE_RESP"] + ".g%d" % gi
-        r = kit.judge("%s-g%d" % (label, gi), module, cfg, pth, env=e, expect_events=len(idxs), heap="4g", timeout=3000)
+        r = kit.judge("%s-g%d" % (label, gi), module, cfg, pth, env=e, expect_events=len(idxs), heap="6g", timeout=3000)
         return idxs, r
     with ThreadPoolExecutor(max_workers=min(len(groups), NCPU)) as ex:
         rs = list(ex.map(one, range(len(groups))))
